@@ -6,8 +6,10 @@
    signature check the message handed to the BLS oracle (domain type, fork version, genesis_validators_root, object root).
    That zrnt returns an error (and no panic) exactly then is, per operation, the `_refines` theorems of Properties/C01.v
    (their right-hand side maps Spec `None` to `Err`) and the correspondence on corrupted blocks.
-   PARTIAL: `reject_refines` for the whole block (composition of the per-operation theorems) is not assembled; panic-freedom on
-   arbitrary decodable bytes is tied by the correspondence stream and the index audit in design/C01-C03-refine.md. *)
+   C03_reject_refines_partial / C03_transition_no_panic_partial assemble them for the whole block (zrnt's ProcessBlock of every
+   fork): Spec rejects -> Impl returns an error; Impl never panics.  PARTIAL: under the numeric `envelope` hypothesis of
+   C01_process_block_refines_partial; panic-freedom on arbitrary decodable bytes outside it is tied by the correspondence stream
+   and the index audit in design/C01-C03-refine.md. *)
 
 From Coq Require Import String.
 From Coq Require Import NArith ZArith List Bool.
@@ -20,6 +22,9 @@ From V Require Import Base.U64 Base.Outcome Ssz.SszCore Beacon.Config Beacon.Sch
   Beacon.Refine.BlockSlashRefine Beacon.Refine.BlockAttRefine Beacon.Refine.BlockDepositRefine
   Beacon.Refine.BlockWithdrawRefine Beacon.Refine.BlockHeaderRefine Beacon.Refine.BlockAttSlashRefine
   Beacon.Refine.BlockNonvacuous Beacon.Refine.RejectNonvacuous.
+From V Require Import Beacon.Impl.Block2Ops Beacon.Proofs.Lengths Beacon.Proofs.Stability Beacon.Proofs.EpcInv
+  Beacon.Refine.Block2Refine Beacon.Refine.Block2AttRefine Beacon.Refine.Block2Frame Beacon.Refine.Block2Carry
+  Beacon.Refine.BlockAssembly Beacon.Refine.BlockAssemblyWitness.
 Import ListNotations RecordSetNotations.
 Local Open Scope string_scope.
 Local Open Scope list_scope.
@@ -602,6 +607,45 @@ Theorem C03_cross_domain_rejected_shape :
   forall E : Env, cross_domain_shape E.
 Proof. exact cross_domain_rejected_shape. Qed.
 Print Assumptions C03_cross_domain_rejected_shape.
+
+(* ===================== ASSEMBLY: what the spec rejects zrnt rejects, and without panicking (ProcessBlock of every fork) ===================== *)
+
+(* Spec.process_block = None -> Impl.process_block = Err. PARTIAL: same `envelope` hypothesis as
+   C01_process_block_refines_partial (see there); all other invariants are discharged *)
+Theorem C03_reject_refines_partial :
+  forall (E : Env) (f : fork) (P : nat -> BeaconState -> Prop) (st0 : BeaconState) 
+      (epc2 : BlockEpc2) (blk : value),
+    cfg_sane E ->
+    cfg_extra E ->
+    envelope E f P blk ->
+    vec_lens E st0 ->
+    epc2_ok E st0 epc2 ->
+    P 0%nat st0 ->
+    lengths_inv f st0 ->
+    block_typed E f (vfield blk 4) ->
+    process_block E f st0 blk = None -> process_block_impl E f epc2 st0 blk = Err.
+Proof. exact reject_refines_partial. Qed.
+Print Assumptions C03_reject_refines_partial.
+
+(* the Impl model of ProcessBlock never yields Panic (slice index out of range - in particular
+   GetCommitteeCountPerSlot's epochComms[0] -, division by zero), Blocked or OutOfFuel: the index audit of
+   design/C01-C03-refine.md as a theorem. PARTIAL: under the same hypotheses; block_typed = what decoding a block
+   of the fork guarantees *)
+Theorem C03_transition_no_panic_partial :
+  forall (E : Env) (f : fork) (P : nat -> BeaconState -> Prop) (st0 : BeaconState) 
+      (epc2 : BlockEpc2) (blk : value),
+    cfg_sane E ->
+    cfg_extra E ->
+    envelope E f P blk ->
+    vec_lens E st0 ->
+    epc2_ok E st0 epc2 ->
+    P 0%nat st0 ->
+    lengths_inv f st0 ->
+    block_typed E f (vfield blk 4) ->
+    (forall p : panic_class, process_block_impl E f epc2 st0 blk <> Panic p) /\
+    process_block_impl E f epc2 st0 blk <> Blocked /\ process_block_impl E f epc2 st0 blk <> OutOfFuel.
+Proof. exact transition_no_panic_partial. Qed.
+Print Assumptions C03_transition_no_panic_partial.
 
 (* ===================== PINNED SNAPSHOT (before fix: commit 9bd2c6a): _refuted witness ===================== *)
 
